@@ -20,11 +20,16 @@ REGISTRY["C14"] = {
              "events return (false,EventDidNotMatch) and leave behaviour identical to the history without them), plus rapid-drawn "
              "histories of length 7..40 with mixed signal/message/operationRef definitions and four kinds of non-matching events. "
              "Non-trivial: accounting (parallel) configuration with >=2 definitions in which some definition is matched twice "
-             "while another has not been matched yet; for plain multiple: >=2 definitions. Distinct = distinct (configuration, history)."),
+             "while another has not been matched yet; for plain multiple: >=2 definitions. Distinct = distinct (configuration, history). "
+             "TestC14Process drives the same histories through a real process (catch event with 1..4 definitions, parallelMultiple or not, "
+             "optionally behind a task so that events also arrive before the catch event is armed) against the reference model: "
+             "process level non-trivial = >=2 definitions and >=2 events."),
     "assumptions": ["definitions of one catch event have distinct references (two definitions matching the same event are outside the statement)"],
     "tests": [
         {"name": "TestC14Exhaustive", "mode": "plain", "shards": {"quick": 1, "thorough": 1}},
         {"name": "TestC14Random", "mode": "rapid", "checks": {"quick": 3000, "thorough": 100000},
+         "shards": {"quick": 4, "thorough": 16}},
+        {"name": "TestC14Process", "mode": "rapid", "checks": {"quick": 300, "thorough": 6000},
          "shards": {"quick": 4, "thorough": 16}},
     ],
 }
